@@ -48,6 +48,15 @@ F7_SIG = "F7-eig-segment-N=d+skip"
 LTSA_RANKDEF_ENFORCED = True
 LTSA_RANKDEF_SIG = "C08-kltsa-rank-deficient-neighbourhood"
 
+# HLLE / KLTSA when the local Gram-Schmidt loop meets a column that depends linearly on the earlier ones (the local
+# solver's arbitrary null vector for a rank-deficient neighbourhood is often SPARSE, so that w, w*w, v*w are
+# dependent): before repair F52 the loop normalised rounding noise (|M 1| = 18, affine residual 0.5 on flat data);
+# F52 drops such a column (norm <= 1e-8 * norm before orthogonalisation).  Coordinator's ruling: genuine, the
+# standing assumption "non-degenerate Gram-Schmidt" must not skip it: the null-space clauses are evaluated with the
+# drop threshold as conditioning and a failure is reported under this signature.
+GS_DEGENERATE_SIG = "C08-hlle-degenerate-null-vector"
+GS_DROP_THRESHOLD = 1e-8
+
 TRUSTED = [
     "hand-written model Lle_Model.v tied by differential testing on the public routine templates (not a proof about the C++ text)",
     "oracles (modelled, contract checked per observed call): Eigen ldlt().solve (replaced by certifying Gaussian "
@@ -78,7 +87,9 @@ TRUSTED = [
     "g++ ASan/UBSan/_GLIBCXX_ASSERTIONS as the memory-safety observer (HLLE column bookkeeping, F6; eigenvalue slice, F7)",
     "wave 4, null-space clauses (check_null_space) on the implementation's own matrix: M 1 = mu 1 and, on exactly flat "
     "data, M x_t = mu x_t; tolerance 256 n k eps / (Gram-Schmidt conditioning of the columns the C++ starts from, replayed "
-    "in binary64 from the routine's own local eigenvectors; at least 1e-4) for constants, plus 256 n k eps max(|K_loc|, "
+    "in binary64 from the routine's own local eigenvectors; where it is below 1e-4, i.e. a column depends linearly on "
+    "the earlier ones, the drop threshold 1e-8 of repair F52 is used and a failure carries the signature "
+    "C08-hlle-degenerate-null-vector) for constants, plus 256 n k eps max(|K_loc|, "
     "top) / (smallest non-zero local eigenvalue) for the coordinates: rounding estimates, not theorems (measured head room "
     "on HEAD about 1e3, evidence: largest_null_space_residual_over_tol); exact ranks of the neighbourhoods are computed "
     "in Python on the integer coordinates",
@@ -1324,13 +1335,15 @@ def check_null_space(ctx, c, nb, mats, M, stats):
     mu = fr(c["shift"]) if meth == "ltsa" else Fraction(0)
     kern = kern_of(c)
     gs = 1.0
+    degenerate_gs = False
     if meth == "hlle":
         if k < hlle_ncols(d):
             return
         gs = hlle_oracle_conditioning(nb, mats, k, d)
         if gs < 1e-4:
             stats.counts["null_gs_ill_conditioned"] += 1
-            return
+            degenerate_gs = True
+            gs = GS_DROP_THRESHOLD
     # conditioning of the local eigenproblems: backward error k eps max(|K_loc|, top) against the smallest eigenvalue
     # that has to be told from zero: lambda_d (KLTSA; HLLE full rank) or lambda_r (HLLE, neighbourhood of rank r < d)
     rks = nbhd_ranks(c["flatX"], nb, k) if "flatX" in c else None
@@ -1360,10 +1373,14 @@ def check_null_space(ctx, c, nb, mats, M, stats):
         gs = min(hlle_conditioning([E[i * k + a][k - d:] for a in range(k)], k, d, products=False) for i in range(n))
         if gs < 1e-4:
             stats.counts["null_gs_ill_conditioned"] += 1
-            return
+            degenerate_gs = True
+            gs = GS_DROP_THRESHOLD
 
     def report(what):
-        if not observed:
+        if degenerate_gs:
+            ctx.violation(slim(c), what + " [a local Gram-Schmidt column depends linearly on the earlier ones: it must "
+                                          "be dropped, not normalised]", signature=GS_DEGENERATE_SIG)
+        elif not observed:
             ctx.violation(slim(c), what)
         elif LTSA_RANKDEF_ENFORCED:
             ctx.violation(slim(c), what, signature=LTSA_RANKDEF_SIG)
@@ -1374,7 +1391,7 @@ def check_null_space(ctx, c, nb, mats, M, stats):
         tol1 = NULL_SAFETY * n * k * EPS / gs
     else:
         tol1 = NULL_SAFETY * n * k * EPS * cond_all
-    if tol1 <= 1e-4:
+    if tol1 <= (1e-2 if degenerate_gs else 1e-4):
         r1 = apply([Fraction(1)] * n)
         stats.counts["ltsa_rankdef_const_observed" if observed else "null_const_checked"] += 1
         if not (observed and not LTSA_RANKDEF_ENFORCED):
@@ -1391,7 +1408,7 @@ def check_null_space(ctx, c, nb, mats, M, stats):
         return
     cnd = cond_nz if (meth == "hlle" or observed) else cond_all
     tol2 = NULL_SAFETY * n * k * EPS * (cnd + 1.0 / gs)
-    if not tol2 <= 1e-4:
+    if not tol2 <= (1e-2 if degenerate_gs else 1e-4):
         stats.counts["null_affine_ill_conditioned"] += 1
         return
     X = c["flatX"]
